@@ -106,7 +106,12 @@ def run(ctx):
         pyrandom.seed(seed)
         try:
             model = KMeans(**kwargs)
-            cluster_idx, performed_it = model.fit(data, use_parallel=parallel, monitor_distances=monitor)
+            if use_c and not ctx.quick and rng.random() < 0.04:
+                # fit_fast: forces the C engine and the multiprocessing pool
+                ctx.count("fit_fast_calls")
+                cluster_idx, performed_it = model.fit_fast(data, monitor_distances=monitor)
+            else:
+                cluster_idx, performed_it = model.fit(data, use_parallel=parallel, monitor_distances=monitor)
         except Exception as e:
             ctx.violation("exception", fn="KMeans.fit", error=repr(e)[:300], **wit)
             continue
